@@ -4,6 +4,7 @@
 // Rewrites (all textual splices at AST positions, never adding a newline
 // before the end of file, so every line number of the original is kept):
 //  1. import "sync"              -> sync "<mod>/internal/verif/vsync"
+//  1b. import "sync/atomic"      -> atomic "<mod>/internal/verif/vatomic" (every atomic operation is a scheduling point)
 //  2. go f(args)                 -> vsched.Go(...)   (arguments evaluated eagerly)
 //  3. os.<FileOp>(...)           -> vos.<FileOp>(...)
 //  4. http.Transport{...}        -> + DialContext: memnet.DialContext
@@ -182,6 +183,14 @@ func rewriteFile(fset *token.FileSet, f *ast.File, src []byte, name string, plai
 				}
 				start := off(imp.Pos())
 				edits = append(edits, edit{start, off(imp.End()), local + ` "` + modPath + `/internal/verif/vsync"`})
+			}
+		case "sync/atomic":
+			// rewrite 1b: atomic operations become scheduling points
+			if !plain {
+				if local == "" {
+					local = "atomic"
+				}
+				edits = append(edits, edit{off(imp.Pos()), off(imp.End()), local + ` "` + modPath + `/internal/verif/vatomic"`})
 			}
 		case "os":
 			osName = "os"
